@@ -145,6 +145,17 @@ func c18Writer(r *eng.Run, mode int) {
 		cfg2.Ext2 = []int{0, 0, 1, 2}[r.T.Int(sim.LCfg, 4)]
 	}
 	p2, p3 := NewPipe(r, nil), NewPipe(r, nil)
+	sameDest := mode == 0 && r.T.Chance(sim.LCfg, 1, 3)
+	if sameDest {
+		// Reset onto the destination of the first life (which works again
+		// if it had failed), half of the time with the same state as well.
+		p1.Heal()
+		p2 = p1
+		if r.T.Bool(sim.LCfg) {
+			cfg2.Client, cfg2.Extra = cfg1.Client, cfg1.Extra
+		}
+		r.Probe("reset_to_the_same_destination")
+	}
 	w := wr1.W
 	var reused *wsutil.Writer
 	switch mode {
@@ -202,7 +213,7 @@ func c18Writer(r *eng.Run, mode int) {
 	wrB := &WRun{Cfg: cfg2, Ops: h2, Pipe: p3, W: fresh}
 	ExecHistory(r, wrB, seed2, nil)
 	ta, tb := transcript(wrA), transcript(wrB)
-	if mode == 1 {
+	if mode == 1 || sameDest {
 		// Same destination as the first life: compare what was sent since.
 		for i := range wrA.Obs {
 			wrA.Obs[i].WireLen -= base
@@ -315,8 +326,21 @@ func c18FlateWriter(r *eng.Run) {
 	closeIt := r.T.Bool(sim.LHist)
 	r.Note("C18 wsflate.Writer.Reset level=%d first life mode=%d (%d bytes, dest failed=%v), second life %d bytes close=%v", level, mode1, len(m1), p1.WriteFailed(), len(m2), closeIt)
 	r.Res.Nontrivial = true
-	ta := flateHistory(w, m2, chunks, closeIt)
-	tb := flateHistory(fresh, m2, chunks, closeIt)
+	life2 := func(x *wsflate.Writer) []string { return flateHistory(x, m2, chunks, closeIt) }
+	switch r.T.Int(sim.LHist, 5) {
+	case 1: // the very first call of the new life is Close
+		life2 = func(x *wsflate.Writer) []string {
+			return []string{"Close=" + errStr(x.Close()), "Err=" + errStr(x.Err())}
+		}
+		r.Probe("second_life_starts_with_close")
+	case 2: // ... or Flush, then Close
+		life2 = func(x *wsflate.Writer) []string {
+			return []string{"Flush=" + errStr(x.Flush()), "Close=" + errStr(x.Close()), "Err=" + errStr(x.Err())}
+		}
+		r.Probe("second_life_starts_with_flush")
+	}
+	ta := life2(w)
+	tb := life2(fresh)
 	diffTranscripts(r, "reset_differs_from_new", "wsflate.Writer.Reset", ta, tb, p2.Out, p3.Out)
 }
 
